@@ -1450,6 +1450,14 @@ def longitude_continuity(coordinates, region):
         interval_360 = False
         e = ((e + 180) % 360) - 180
         w = ((w + 180) % 360) - 180
+        # The modulo operations wrap an east boundary that lies on the seam
+        # of the interval (180 or 360 degrees) to the lower end of the
+        # interval. Move it back to the upper end so that west <= east.
+        if w > e and e == -180:
+            e = 180
+        elif w > e and e == 0:
+            interval_360 = True
+            e = 360
     region = np.array(region)
     region[:2] = w, e
     # Modify extra coordinates if passed
@@ -1459,8 +1467,13 @@ def longitude_continuity(coordinates, region):
         longitude = coordinates[0]
         if interval_360:
             longitude = longitude % 360
+            seam = (0, 360)
         else:
             longitude = ((longitude + 180) % 360) - 180
+            seam = (-180, 180)
+        # Longitudes on the seam belong to the east boundary when it lies there
+        if e == seam[1] and w > seam[0]:
+            longitude = np.where(longitude == seam[0], seam[1], longitude)
         coordinates = np.array(coordinates)
         coordinates[0] = longitude
         return coordinates, region
